@@ -111,6 +111,13 @@ class Impl:
 
 # ---------------------------------------------------------------------------------------------
 def gen_case(rng):
+    case = _gen_case(rng)
+    if case["kind"] not in ("IS", "IS_NOT") and rng.random() < 0.25:
+        case["proxy"] = rng.choice([[True, True], [False, True], [True, False]])
+    return case
+
+
+def _gen_case(rng):
     kind = rng.choice(KINDS + ["LT", "LE", "EQ", "IN"])
     if kind == "EXC":
         a, b = V.gen_exc_pair(rng)
@@ -140,6 +147,19 @@ def build_pair(case):
     return a, b
 
 
+def proxied(case, a, b):
+    """What reaches the tracer in a type-tracing execution: operands wrapped in ObjectProxy
+    (case["proxy"] = [wrap a, wrap b]).  `is` compares the proxies themselves, not generated."""
+    px = case.get("proxy")
+    if not px:
+        return a, b
+    import pynguin.utils.typetracing as tt
+
+    pa = tt.ObjectProxy(a) if px[0] else a
+    pb = pa if case.get("alias") and px[0] and px[1] else (tt.ObjectProxy(b) if px[1] else b)
+    return pa, pb
+
+
 def evaluate(impl, case):
     kind = case["kind"]
     V.LOG.clear()
@@ -147,9 +167,10 @@ def evaluate(impl, case):
     plain_log = list(V.LOG)
     a, b = build_pair(case)
     V.LOG.clear()
-    out, raw, disabled = impl.run(kind, a, b)            # the tracer, fresh values
+    out, raw, disabled = impl.run(kind, *proxied(case, a, b))   # the tracer, fresh values (maybe proxied)
     tracer_log = list(V.LOG)
-    # what the subject under test computes next, on the very same objects (the probe runs first)
+    # what the subject under test computes next, on the very same objects (the probe runs first;
+    # a proxy forwards the operator to the object it wraps)
     sut = py_eval(kind, a, b) if kind != "INP" else ref
     return {"ref": ref, "out": out, "raw": raw, "sut": sut, "disabled": disabled,
             "extra_calls": sorted(set(tracer_log) - set(plain_log))}
@@ -292,13 +313,15 @@ def run(ctx: vlib.Ctx):
         ev = evaluate(impl, case)
         recs.append((case, ev))
         one_shot = case["kind"] in ("IN", "NOT_IN", "INP") and V.is_one_shot(case["b"])
-        ctx.case_seen((case["kind"], case["a"], case["b"], case.get("alias")), nontrivial=True)
+        ctx.case_seen((case["kind"], case["a"], case["b"], case.get("alias"), case.get("proxy")), nontrivial=True)
         ctx.count("kind:" + case["kind"])
         ctx.count("a:" + V.vclass(case["a"]))
         if case["kind"] not in ("BOOL",):
             ctx.count("b:" + V.vclass(case["b"]))
         ctx.count("python:" + (ev["ref"][0] if ev["ref"][0] == "ret" else "raise:" + ev["ref"][1]))
         ctx.count("tracer:" + ev["out"][0])
+        if case.get("proxy"):
+            ctx.count("operands-in-ObjectProxy")
         if one_shot:
             ctx.count("one_shot_container")
         if ev["raw"] is not None and ev["out"][0] == "recorded":
@@ -330,7 +353,8 @@ def run(ctx: vlib.Ctx):
                        "__iter__/__next__ (returning bools, non-bools, NotImplemented, objects without truth value, or "
                        "raising), subclasses, numbers.Number-registered classes, exception classes/tuples; x 13 predicate "
                        "kinds; related pairs (copies, aliases, neighbours, members); every case counts as non-trivial; "
-                       "distinct = distinct (kind, specs)")
+                       "a quarter of the cases with one or both operands wrapped in typetracing.ObjectProxy (type-tracing execution); "
+                       "distinct = distinct (kind, specs, proxy flags)")
     ctx.leg("S", oracle_failures=n_fail, cases=len(cases), cases_with_operator_calls_python_does_not_make=extra)
     ctx.notes.append(f"tracer evaluated an operator slot that Python's own evaluation does not touch in {extra} cases "
                      "(statistic only; not part of the property)")
